@@ -1026,6 +1026,10 @@ fn qop_step(ctx: &mut Ctx, q: &mut purl::Qualifiers, op: &Value, exp_res: &Value
     }
     let post = quals_json(q);
     ctx.check("C11", "content after the call is what the reference map gives", "Qualifiers", &post == exp_post, exp_post, &post);
+    if &post != exp_post {
+        // a content TLC has not seen: its structural invariant (strictly ascending valid lower-case keys) is judged by TLC
+        ctx.event(json!({"ev": "qvec", "post": post, "op": op}));
+    }
     if op[0] == json!("try_insert_typed_checksum") || op[0] == json!("try_get_typed_checksum") {
         ctx.check("C12", "typed checksum accessors of the collection", "Qualifiers", &res == exp_res && &post == exp_post, exp_res, &res);
     }
